@@ -144,7 +144,7 @@ def _worker(spec):
     out = {'counts': collections.Counter(), 'viol': [], 'samples': [], 'distinct': [], 'incon': []}
     C = out['counts']
     modes = spec['modes']
-    exe = common.build(eg.emit_tu(gs), spec.get('flavour', 'clang'), extra=eg.mode_defines(modes))
+    exe, hook_ok = eg.build_tu(eg.emit_tu(gs), spec.get('flavour', 'clang'), extra=eg.mode_defines(modes))
     astss = [[term_ast(t) for t in ts] for ts in sets]
     refs = [rr.TaggedRefDFA(a) for a in astss]
     inputs = [gen_inputs(rnd, ts, a, spec['n_inputs']) for ts, a in zip(sets, astss)]
